@@ -307,6 +307,20 @@ func (e *Engine) Load(name string) (*Template, error) {
 	if template == nil {
 		// If we have collected errors from loaders, include them in the error message
 		if len(loaderErrors) > 0 {
+			// A loader that failed for any reason other than "not found" is a real failure:
+			// report it as such and keep its error reachable through errors.Is/As
+			var failures []error
+			for _, err := range loaderErrors {
+				if !errors.Is(err, ErrTemplateNotFound) {
+					failures = append(failures, err)
+				}
+			}
+			if len(failures) > 0 {
+				err := fmt.Errorf("failed to load template '%s': %w", name, errors.Join(failures...))
+				LogError(err, "loader failure")
+				return nil, err
+			}
+
 			errorDetails := strings.Builder{}
 			errorDetails.WriteString(fmt.Sprintf("Template '%s' not found. Tried %d loaders:\n", name, len(loaderErrors)))
 
